@@ -44,11 +44,54 @@ var c09blockCases = []struct {
 		"/w.jet":    `w<{{yield badge()}}>`}, "B:ctx|w<B:c2>"},
 }
 
+// Directed cases with an expected error or output under ordinary variables.
+var c09moreCases = []struct {
+	name    string
+	files   map[string]string
+	data    interface{}
+	want    string
+	wantErr bool
+}{
+	// includeIfExists behaves like include when the template EXISTS - also when it exists and cannot be used
+	{"includeIfExists-of-unparsable-template-fails-like-include", map[string]string{
+		"/main.jet": `before|{{if includeIfExists("/broken.jet")}}Y{{else}}fallback{{end}}|after`, "/broken.jet": `x{{ if }}y`}, nil, "before|", true},
+	{"includeIfExists-of-template-extending-a-missing-one", map[string]string{
+		"/main.jet": `before|{{if includeIfExists("/child.jet")}}Y{{else}}fallback{{end}}|after`, "/child.jet": `{{extends "/nowhere.jet"}}c`}, nil, "before|", true},
+	{"includeIfExists-of-template-importing-a-missing-one", map[string]string{
+		"/main.jet": `before|{{if includeIfExists("/child.jet")}}Y{{else}}fallback{{end}}|after`, "/child.jet": `{{import "/nowhere.jet"}}c`}, nil, "before|", true},
+	{"include-of-unparsable-template-fails", map[string]string{
+		"/main.jet": `before|{{include "/broken.jet"}}|after`, "/broken.jet": `x{{ if }}y`}, nil, "before|", true},
+	{"includeIfExists-missing-is-false", map[string]string{
+		"/main.jet": `before|{{if includeIfExists("/nowhere.jet")}}Y{{else}}fallback{{end}}|after`}, nil, "before|fallback|after", false},
+	// the name of an include is computed in the includer's context, whatever context is handed to the target
+	{"computed-name-reads-dot-explicit-context", map[string]string{
+		"/main.jet": `{{include .tpl .item}}|{{range .items}}{{include "/" + .kind + ".jet" .label}}{{end}}`,
+		"/card.jet": `[card {{.}}]`, "/row.jet": `[row {{.}}]`},
+		map[string]interface{}{"tpl": "/card.jet", "item": "one", "items": []map[string]string{{"kind": "card", "label": "a"}, {"kind": "row", "label": "b"}}}, "[card one]|[card a][row b]", false},
+	{"computed-name-reads-dot-string-context", map[string]string{
+		"/main.jet": `{{include .tpl "literal-ctx"}}`, "/card.jet": `[card {{.}}]`},
+		map[string]interface{}{"tpl": "/card.jet"}, "[card literal-ctx]", false},
+}
+
 var c09varForms = []string{"nil VarMap", "empty VarMap", "VarMap with an unrelated variable"}
 
-var c09nBlockCases = len(c09blockCases) * len(c09varForms)
+var c09nBlockCases = len(c09blockCases)*len(c09varForms) + len(c09moreCases)
 
 func c09blockCase(c *fw.Ctx, idx int) {
+	if k := idx - len(c09blockCases)*len(c09varForms); k >= 0 {
+		d := c09moreCases[k]
+		c.Begin(idx, map[string]interface{}{"directed": d.name, "files": d.files})
+		defer c.End()
+		res := jx.Run(d.files, "/main.jet", jet.VarMap{}, d.data, jx.NoEscape)
+		c.Eval(1)
+		c.Count("directed_include_cases", 1)
+		if res.Panic != nil || res.ParseErr != nil || d.wantErr != (res.Err != nil) || res.Out != d.want {
+			c.Violation("c09:directed:"+d.name, "", fmt.Sprintf("rendered %s, want output %q and error=%v", res, d.want, d.wantErr))
+			return
+		}
+		c.Distinct("directed|" + d.name)
+		return
+	}
 	d := c09blockCases[idx/len(c09varForms)]
 	form := idx % len(c09varForms)
 	c.Begin(idx, map[string]interface{}{"directed": "includer's blocks visible", "name": d.name, "files": d.files, "variables": c09varForms[form]})
